@@ -398,6 +398,12 @@ def check(ctx):
 
 
 MUTANTS = [
+    Mutant("F19b-revert-header-result-dropped", HTTP, "                ok = self.headerReceived(self.__header)\n                # If the header we just got is invalid, we MUST NOT proceed\n                # with processing. We'll have sent a 400 anyway, so just stop.\n                if not ok:\n                    return\n            self.__header = line",
+           "                self.headerReceived(self.__header)\n            self.__header = line", expect_rule="mustpass/result-used"),
+    Mutant("F19b-revert-seen-by-the-bounded-layer", HTTP, "                ok = self.headerReceived(self.__header)\n                # If the header we just got is invalid, we MUST NOT proceed\n                # with processing. We'll have sent a 400 anyway, so just stop.\n                if not ok:\n                    return\n            self.__header = line",
+           "                self.headerReceived(self.__header)\n            self.__header = line", expect_rule="reject/nothing-processed-after-400"),
+    Mutant("rejected-header-replaced-by-next-line", HTTP, "                if not ok:\n                    return\n            self.__header = line", "                if not ok:\n                    self.__header = line\n                    return\n            self.__header = line",
+           expect_rule="reject/nothing-processed-after-400"),
     Mutant('token-regex-dollar-accepts-trailing-newline', ABNF, '    for c in b:\n        if c not in (\n            b"ABCDEFGHIJKLMNOPQRSTUVWXYZabcdefghijklmnopqrstuvwxyz"  # ALPHA\n            b"0123456789"  # DIGIT\n            b"!#$%&\'*+-.^_`|~"\n        ):\n            return False\n    return b != b""\n', '    return _TOKEN_RE.match(b) is not None\n', more=[(ABNF, '"""\n\n\ndef _istoken', '"""\n\nimport re\n\n_TOKEN_RE = re.compile(rb"[A-Za-z0-9!#$%&\'*+\\-.^_`|~]+$")\n\n\ndef _istoken')]),
     Mutant('hexdigits-regex-dollar-accepts-trailing-newline', ABNF, '    for c in b:\n        if c not in b"0123456789abcdefABCDEF":\n            return False\n    return b != b""\n', '    return _HEX_RE.match(b) is not None\n', more=[(ABNF, '"""\n\n\ndef _istoken', '"""\n\nimport re\n\n_HEX_RE = re.compile(rb"[0-9a-fA-F]+$")\n\n\ndef _istoken')]),
     Mutant('name-cached-by-helper-before-validation', HDRS, '        if not _istoken(bytes_name):\n            raise InvalidHeaderName(bytes_name)\n\n        result = b"-".join([word.capitalize() for word in bytes_name.split(b"-")])\n', '        result = self._remember(name, bytes_name)\n        if not _istoken(result):\n            raise InvalidHeaderName(bytes_name)\n        return result\n\n    def _remember(self, name, bytes_name):\n        result = b"-".join([word.capitalize() for word in bytes_name.split(b"-")])\n'),
@@ -411,7 +417,7 @@ MUTANTS = [
            "            self._respondToBadRequestAndDisconnect()\n\n        if self.__first_line:"),
     Mutant("bad-request-line-not-answered", HTTP, "            except ValueError:\n                self._respondToBadRequestAndDisconnect()\n                return\n",
            "            except ValueError:\n                return\n"),
-    Mutant("last-header-result-ignored", HTTP, "                if not ok:\n                    return\n", ""),
+    Mutant("last-header-result-ignored", HTTP, "                if not ok:\n                    return\n            self.__header = b\"\"\n", "            self.__header = b\"\"\n"),
     Mutant("length-falsy-completes-chunked", HTTP, "            if self.length == 0:\n                self.allContentReceived()", "            if not self.length:\n                self.allContentReceived()"),
     Mutant("stale-header-kept", HTTP, "            self.__header = b\"\"\n            self.allHeadersReceived()", "            self.allHeadersReceived()"),
     Mutant("nul-check-dropped", HTTP, "        if b\"\\x00\" in data:\n            self._respondToBadRequestAndDisconnect()\n            return False\n", ""),
